@@ -239,11 +239,7 @@ pub fn mutator(r: &mut Rng, out: &mut String, nkeys: usize) {
                 writeln!(out, "append b0{}", s).unwrap()
             }
             16 => {
-                let n = r.range(0, 20);
-                let mut s = String::new();
-                for _ in 0..n {
-                    write!(s, " {}", value(r, nkeys)).unwrap();
-                }
+                let s = join_vals(&structured_seq(r, 20, 65536, u32::MAX as u64, &mut |r| value(r, nkeys) as u64));
                 writeln!(out, "extend b0{}", s).unwrap()
             }
             17 => {
@@ -327,8 +323,10 @@ pub fn gen_case(r: &mut Rng, out: &mut String, with_queries: bool) {
         writeln!(out, "eq b8 b0").unwrap();
         writeln!(out, "expect true").unwrap();
         writeln!(out, "default b7").unwrap();
-        let n = r.range(0, 4);
-        let vs: Vec<String> = (0..n).map(|_| value(r, nkeys).to_string()).collect();
+        let vs: Vec<String> = structured_seq(r, 4, 65536, u32::MAX as u64, &mut |r| value(r, nkeys) as u64)
+            .iter()
+            .map(|x| x.to_string())
+            .collect();
         writeln!(out, "extend_ref b7 {}", vs.join(" ")).unwrap();
         writeln!(out, "from_iter_ref b6 {}", vs.join(" ")).unwrap();
         writeln!(out, "from_arr b5 {}", vs.join(" ")).unwrap();
